@@ -76,7 +76,10 @@ void m_clone(string file, string t, int drop) {
 // policy: answers for successive valid_read/valid_write calls, read from /policy (written by the plan)
 string *policy; int policy_pos;
 string hexs(string s) { string r; int i; r = ""; for (i = 0; i < strlen(s); i++) r += sprintf("%02x", s[i] & 255); return r; }
-string unhex(string hex) { string r; int i, n; r = ""; for (i = 0; i + 1 < strlen(hex); i += 2) { sscanf(hex[i..i + 1], "%x", n); r += sprintf("%c", n); } return r; }
+// (a path can carry "@<n>@", which stands for n letters: names far longer than a command line)
+string unhex(string hex) { string r, pre, post; int i, n, k; r = ""; for (i = 0; i + 1 < strlen(hex); i += 2) { sscanf(hex[i..i + 1], "%x", n); r += sprintf("%c", n); }
+  while (sscanf(r, "%s@%d@%s", pre, k, post) == 3) r = pre + repeat_string("a", k) + post;
+  return r; }
 mixed answer(string kind, string file, object user, string func) {
   string a;
   if (!policy || policy_pos >= sizeof(policy)) a = "1"; else a = policy[policy_pos++];
